@@ -7,7 +7,7 @@ def StartedNow (hist : List (Store × In)) (e : Nat) : Prop :=
   ∃ pre post db, hist = pre ++ [(db, In.v1 (.good e))] ++ post ∧ ∀ x ∈ post, x.2.noop = true
 
 def Inv (c : Nat) (hist : List (Store × In)) (st : St) : Prop :=
-  st.step = .startResp → ∃ e, StartedNow hist e ∧ st.other = some e ∧ st.K = .ofEph c e
+  st.step = .startResp → ∃ e, StartedNow hist e ∧ st.other = some e ∧ st.K = .ofEph c st.epoch e
 
 theorem inv_init (c : Nat) : Inv c [] init := by simp [Inv, init]
 
@@ -33,7 +33,7 @@ theorem inv_step (c : Nat) (hist : List (Store × In)) (st : St) (db : Store) (i
     intro hs; obtain ⟨e, hp, h1, h2⟩ := h hs
     exact ⟨e, startedNow_snoc_noop _ hp rfl, h1, h2⟩
   | v1 key =>
-    simp only [step]
+    simp only [step, stepR]
     split
     · simp [Inv]
     · cases key with
@@ -42,7 +42,7 @@ theorem inv_step (c : Nat) (hist : List (Store × In)) (st : St) (db : Store) (i
         intro _
         exact ⟨e, ⟨hist, [], db, by simp, by simp⟩, rfl, rfl⟩
   | v3 d =>
-    simp only [step]
+    simp only [step, stepR]
     split
     · simp [Inv]
     · cases d with
@@ -71,20 +71,20 @@ theorem step_install_iff (c : Nat) (db : Store) (st : St) (i : In) :
     (step true c db st i).1.installed ≠ st.installed ∨
       ((step true c db st i).2 = .tlv 4 none false false) →
     ∃ name pk, st.step = .startResp ∧ db name = .key pk ∧
-      i = .v3 (.sealed st.K true true (.tlv name (.valid pk st.other name c))) ∧
-      (step true c db st i).1.installed = some st.other := by
+      i = .v3 (.sealed st.K true true (.tlv name (.valid pk st.other name c st.epoch))) ∧
+      (step true c db st i).1.installed = some st.other ∧ (step true c db st i).1.instEpoch = st.epoch := by
   intro hs
   cases i with
-  | malformedTlv => simp [step] at hs
-  | badMethod => simp [step] at hs
-  | badState m => simp [step] at hs
+  | malformedTlv => simp [step, stepR] at hs
+  | badMethod => simp [step, stepR] at hs
+  | badState m => simp [step, stepR] at hs
   | v1 key =>
-    simp only [step] at hs
+    simp only [step, stepR] at hs
     split at hs
     · simp at hs
     · cases key <;> simp at hs
   | v3 d =>
-    simp only [step] at hs
+    simp only [step, stepR] at hs
     split at hs
     · simp at hs
     · rename_i hstep
@@ -109,11 +109,11 @@ theorem step_install_iff (c : Nat) (db : Store) (st : St) (i : In) :
                 obtain ⟨rfl, rfl, rfl⟩ := hk
                 simp at hopen; subst hopen
                 cases sig with
-                | valid signer ce n ac =>
+                | valid signer ce n ac ae =>
                   simp [sigOk] at hsig
-                  obtain ⟨⟨⟨rfl, rfl⟩, rfl⟩, rfl⟩ := hsig
+                  obtain ⟨⟨⟨⟨rfl, rfl⟩, rfl⟩, rfl⟩, rfl⟩ := hsig
                   refine ⟨n, signer, hstep', hdb, rfl, ?_⟩
-                  simp [step, hstep', openSealed, hdb, sigOk]
+                  simp [step, stepR, hstep', openSealed, hdb, sigOk]
                 | garbage m => simp [sigOk] at hsig
                 | empty => simp [sigOk] at hsig
               · simp at hopen
